@@ -6,6 +6,7 @@ META = {
  "C18": dict(level="proof", explanation="combinational postconditions of encoder+decoder with a symbolic error vector, all data words, all single and double flip positions, per data width"),
  "C17": dict(level="proof", explanation="multi-cycle postconditions from an arbitrary register state of the real 8b/10b encoder/decoder pipelines"),
  "C12": dict(level="proof", explanation="one-step postconditions of the real CSR bank against a layout spec function, all inputs and register states"),
+ "C06": dict(level="proof", explanation="per-cycle routing/ownership/response postconditions on the real Wishbone arbiter, decoder, shared interconnect and crossbar with real SoCRegion decoders"),
  "C04": dict(level="proof", explanation="hold-until-ready two-cycle postcondition and bounded-response (progress) obligations from every invariant state of the real stream/packet modules"),
 }
 
@@ -34,5 +35,7 @@ CLAIMS["C17"] = _hw("DESIGN.md §3 C17", "Round trip, code-word weight / running
                     technique="contract-based deductive verification: multi-cycle postconditions from an arbitrary state of the real FHDL pipelines, SMT (z3)")
 CLAIMS["C12"] = _hw("DESIGN.md §3 C12", "Per-cycle write / read / strobe / frame / atomic-commit / device-write / field / uniqueness postconditions of the real CSRBank and CSR classes against a layout spec function, for all bus and device input valuations and all register states, on a grid of register sets x bus width x ordering x paging; csr_bus.Interconnect(Shared) read path; fixed-location placement as a labelled bounded stand-in.",
                     "_sort_gathered_items is only checked by exhaustive small-scope enumeration (bounded, not counted as proved); CSR SRAM windows not covered yet.")
+CLAIMS["C06"] = _hw("DESIGN.md §3 C06", "Mutual exclusion, ownership until the master drops cyc, routing by the real SoCRegion.decoder window (and to no slave when nothing matches), forwarding, ack/err only to the owner, one termination per request, read data of the answering slave and bounded fairness of the round-robin are per-cycle postconditions proved for all request patterns and slave latencies on a grid of shared/crossbar interconnects; each decoder is proved equal to its power-of-two window over all addresses.",
+                    "Known finding: Decoder(register=True) returns stale-select read data when a slave acknowledges in the first cycle.")
 _NYB = "check not built yet in this session (see DESIGN.md build order); will be claimed when its contracts are committed"
 NOT_APPLICABLE = {p: _NYB for p in ["C%02d" % i for i in range(1, 21)]}
